@@ -15,7 +15,8 @@
 From Coq Require Import List Bool ZArith Permutation.
 From Coq.Strings Require Import Byte String.
 From Verif Require Import Base.Bytes Mask.Path Mask.Desc Mask.Trie Mask.Json Mask.Spec.
-From Verif Require Import Mask.TrieFacts Mask.FrameFacts Mask.C14Facts Mask.JsonFacts.
+From Verif Require Import Mask.Print Mask.TrieFacts Mask.FrameFacts Mask.C14Facts Mask.JsonFacts.
+From Verif Require Import Mask.PrintFacts Mask.AllFacts Mask.PimFacts Mask.StringFacts.
 Import ListNotations.
 
 (* ---- build_sound: on the domain every query walk answers as the path set prescribes.
@@ -28,6 +29,85 @@ Theorem C14_build_sound :
   forall q, walk (Some m) q = spec_pass black (path_set gs) q.
 Proof. exact build_sound. Qed.
 Print Assumptions C14_build_sound.
+
+(* ---- path STRINGS end to end.  [print_path] (Mask/Print.v) is the printer of the harness
+   (maskkit.Path.Render: names, decimal ids and keys, quoted keys with the escapes backslash,
+   quote, n, t, r, xHH); the correspondence run checks on every generated case that the strings
+   given to the real library are exactly [map print_path ps].  The tokenizer reads back what
+   the printer prints, so the hypothesis [map tokenize strs = map tokens_of ps] of the
+   theorems below is discharged for printed paths. *)
+Theorem C14_tokenize_print_path :
+  forall p, wf_path p = true -> tokenize (print_path p) = tokens_of p.
+Proof. exact tokenize_print_path. Qed.
+Print Assumptions C14_tokenize_print_path.
+
+Theorem C14_build_sound_strings :
+  forall env d black ps gs m,
+  well_typed env d ps = true -> elab_all env d ps = Some gs -> in_domain black gs = true ->
+  new_mask env d black (map print_path ps) = Ok m ->
+  forall q, walk (Some m) q = spec_pass black (path_set gs) q.
+Proof. exact build_sound_strings. Qed.
+Print Assumptions C14_build_sound_strings.
+
+Theorem C14_build_total_strings :
+  forall env d black ps gs,
+  well_typed env d ps = true -> elab_all env d ps = Some gs -> no_conflict gs = true ->
+  exists m, new_mask env d black (map print_path ps) = Ok m.
+Proof. exact build_total_strings. Qed.
+Print Assumptions C14_build_total_strings.
+
+(* ---- all_sound: the answer of All() on the sub mask a passing query walk reaches is what the
+   path set prescribes (white and black lists; black: the list is not the root path "$") *)
+Theorem C14_all_sound :
+  forall env d black strs ps gs m,
+  map tokenize strs = map tokens_of ps ->
+  well_typed env d ps = true -> elab_all env d ps = Some gs -> in_domain black gs = true ->
+  (black = true -> no_root_path gs = true) ->
+  new_mask env d black strs = Ok m ->
+  forall q, walk (Some m) q = true -> all_q (fst (walk_to (Some m) q)) = spec_all black (path_set gs) q.
+Proof. exact all_sound. Qed.
+Print Assumptions C14_all_sound.
+
+Theorem C14_all_sound_strings :
+  forall env d black ps gs m,
+  well_typed env d ps = true -> elab_all env d ps = Some gs -> in_domain black gs = true ->
+  (black = true -> no_root_path gs = true) ->
+  new_mask env d black (map print_path ps) = Ok m ->
+  forall q, walk (Some m) q = true -> all_q (fst (walk_to (Some m) q)) = spec_all black (path_set gs) q.
+Proof. exact all_sound_strings. Qed.
+Print Assumptions C14_all_sound_strings.
+
+(* ---- path membership: PathInMask (the flag of GetPath) on a path without star and with single
+   keys [p] (typed against the descriptor; [qkeys g] is its position) answers whether that
+   position passes according to the path set -- for masks built on the domain from at least
+   one path, without struct stars, on descriptors with unique field ids ([env_ok]). *)
+Theorem C14_path_in_mask_sound :
+  forall env d black ps gs m p g,
+  env_ok env = true ->
+  well_typed env d ps = true -> elab_all env d ps = Some gs -> in_domain black gs = true ->
+  gs <> [] -> forallb no_starf ps = true -> (black = true -> no_root_path gs = true) ->
+  new_mask env d black (map print_path ps) = Ok m ->
+  forallb simple_seg p = true -> wf_path p = true -> elab env d p = Some g ->
+  exists a, path_in_mask env d m (print_path p) = Some (spec_pass black (path_set gs) (qkeys g), a).
+Proof. exact path_in_mask_strings. Qed.
+Print Assumptions C14_path_in_mask_sound.
+
+(* GetPath itself, on any mask typed by the descriptor: the flag is the query walk *)
+Theorem C14_get_path_is_the_query_walk :
+  forall env, env_ok env = true -> forall p d g,
+  elab env d p = Some g -> forallb simple_seg p = true -> wf_path p = true ->
+  forall f c last b, List.length (flat_map seg_tokens p) < f ->
+  mtyped env c d = true -> SemFacts.inv b c = true -> allok b c = true -> okc c = true ->
+  exists r, get_path f env (flat_map seg_tokens p) d (Some c) last = Some (r, walk (Some c) (qkeys g)).
+Proof. exact get_path_walk. Qed.
+Print Assumptions C14_get_path_is_the_query_walk.
+
+Example C14_path_in_mask_example :
+  env_ok wenv = true /\ forallb no_starf ex_ps = true /\ no_root_path (w_gs wroot ex_ps) = true /\
+  forallb simple_seg [PName (B "li"); PIdx [2%Z]; PId 1] = true /\
+  path_in_mask wenv wroot (w_mask wroot true ex_strs) (print_path [PName (B "li"); PIdx [2%Z]; PId 1]) = Some (false, true) /\
+  path_in_mask wenv wroot (w_mask wroot false ex_strs) (print_path [PName (B "li"); PIdx [2%Z]; PId 1]) = Some (true, true).
+Proof. repeat split; vm_compute; reflexivity. Qed.
 
 (* ---- build_total_on_D: a well-typed conflict-free list always builds (and what it builds) *)
 Theorem C14_build_total_on_D :
